@@ -84,6 +84,7 @@ type vlpSpec struct {
 	TicksRound  int     `json:"ticks_round"`
 	PlogCycle   int     `json:"plog_cycle"`
 	MaxDown     int     `json:"max_down"`
+	Script      string  `json:"script"` // "" = random faults; "rotate" = directed: successive repairs, then a quorum crash
 	P           vlpProb `json:"p"`
 }
 
@@ -1236,6 +1237,55 @@ func (r *vlpRun) healthyRound() {
 	r.evSchedule()
 }
 
+// directed fault schedule (same events as the random one): one host after the other stays down until every
+// shard has been repaired away from it (ADD onto the spare, join, DELETE) and then returns as a spare that still
+// holds the persisted log of its removed replicas; the next repair places new replicas of the same shards on it.
+// After quorum+1 such rotations a quorum of hosts holds, per shard, the log of a removed replica AND of a current
+// member; those hosts then crash together for longer than the failure timeout.  Healing needs the restore of the
+// current members from their logs.
+func (r *vlpRun) rotate() {
+	sp := r.spec
+	quorum := sp.Size/2 + 1
+	nround := 0
+	degraded := func(n int, until func() bool) {
+		for i := 0; i < n && r.fatal == ""; i++ {
+			r.healthyRound()
+			r.logf("ROUND F %d", nround)
+			nround++
+			r.ghost()
+			if until != nil && until() {
+				return
+			}
+		}
+	}
+	for v := 1; v <= quorum+1 && v <= sp.Hosts; v++ {
+		h := r.fl.hosts[v]
+		r.evCrash(h)
+		degraded(24, func() bool {
+			for _, s := range r.fl.shards {
+				c := r.fl.cur(s)
+				if c == nil || len(c.members) != sp.Size {
+					return false
+				}
+				for rid, a := range c.members {
+					hh := r.fl.hosts[a]
+					rep, ok := hh.reps[vlpKey{s, rid}]
+					if a == h.addr || !ok || !rep.running || rep.ver != c.ver {
+						return false
+					}
+				}
+			}
+			return true
+		})
+		r.evRestart(h)
+		degraded(2, nil)
+	}
+	for v := 1; v <= quorum; v++ {
+		r.evCrash(r.fl.hosts[v])
+	}
+	degraded(5, nil)
+}
+
 func (r *vlpRun) catchUp() {
 	for _, h := range r.fl.hosts[1:] {
 		for _, k := range h.keys() {
@@ -1320,6 +1370,9 @@ func (r *vlpRun) run() {
 	}
 	r.logf("LAUNCHED")
 	r.ghost()
+	if sp.Script == "rotate" {
+		r.rotate()
+	}
 	for i := 0; i < sp.FaultRounds && r.fatal == ""; i++ {
 		r.faultRound()
 		r.logf("ROUND F %d", i)
